@@ -1,0 +1,337 @@
+/*
+ * Verification hook H7: value-level instruction trace of the NanoVM.
+ * Compiled only with -DNANOLANG_VERIF (included by vm.c); inert unless
+ * NANOLANG_VERIF_TRACE_VMVAL=<file> is set.  Independent of the H1 trace
+ * (NANOLANG_VERIF_TRACE_VM), whose output it does not change.
+ *
+ * One ndjson line per hook point (before every instruction, at every return of
+ * the core to the host, after host actions).  Every line carries an OBSERVATION
+ * of the machine state as a delta against the previous hook point, computed
+ * from shadow copies kept here -- the hook has no knowledge of what an opcode
+ * is supposed to do:
+ *   d, si, sv   stack depth, first changed slot, the values of slots si..d-1
+ *   fc, fr      frame count, top frame [fn, base, nloc, return_ip, closure id]
+ *   gc, g       global count, [index, value] of every changed global
+ *   h, hf       new/changed containers {id,k,m,len,from,v}, ids of freed ones
+ *   ip, fn      instruction pointer and current function
+ * A value is {t: NanoValueTag, n: 64 payload bits as four 16-bit limbs (msb first),
+ *   s: bytes of a string of <= 64 bytes, h: content key of a longer string,
+ *   o: registry id of a container (H2; -1 = not a live object)}.
+ * "op" lines add the decoded instruction at ip: k (step), op, oc, a (operands), len,
+ *   imm (immediate of PUSH_I64/F64/STR as a value).
+ * The H2 registry supplies object ids; it is active only while the H1 sink is
+ * open, so when only H7 is requested the H1 sink is pointed at /dev/null.
+ */
+#ifndef NANOVM_VERIF_VMVAL_H
+#define NANOVM_VERIF_VMVAL_H
+#ifdef NANOLANG_VERIF
+
+#include <stdlib.h>
+#include <string.h>
+#include <stdio.h>
+#include "vm.h"
+#include "verif_hooks.h"
+
+#define NLV_VSTR_MAX 64
+
+typedef struct { uint8_t tag; uint64_t bits; int id; } NlvKey;          /* identity of a slot's content */
+typedef struct { int seen; int tag; uint32_t m0, m1, len, cap; NlvKey *k; } NlvShadow;
+
+static FILE *nlv_vf = NULL;
+static int nlv_vinit = 0;
+static long nlv_vk = 0;
+static NlvKey *nlv_vstack = NULL;  static uint32_t nlv_vstack_n = 0, nlv_vstack_cap = 0;
+static NlvKey *nlv_vglob = NULL;   static uint32_t nlv_vglob_n = 0;
+static NlvShadow *nlv_vsh = NULL;  static int nlv_vsh_cap = 0;          /* indexed by registry id */
+static int *nlv_vlive = NULL;      static int nlv_vlive_n = 0, nlv_vlive_cap = 0;
+static int nlv_vepoch = 0;
+static const void *nlv_vmod = NULL;
+static int nlv_vcalled = -1;
+static NanoValue nlv_vstash[17];   static int nlv_vstash_n = 0;
+
+static FILE *nlv_vfile(void) {
+    if (!nlv_vinit) {
+        nlv_vinit = 1;
+        const char *path = getenv("NANOLANG_VERIF_TRACE_VMVAL");
+        if (path && path[0]) {
+            nlv_vf = fopen(path, "a");
+            if (nlv_vf) setenv("NANOLANG_VERIF_TRACE_VM", "/dev/null", 0);   /* switches the H2 registry on */
+        }
+    }
+    return nlv_vf;
+}
+
+static int nlv_vis_container(uint8_t tag) {
+    return tag == TAG_ARRAY || tag == TAG_STRUCT || tag == TAG_UNION || tag == TAG_TUPLE ||
+           tag == TAG_HASHMAP || tag == TAG_FUNCTION;
+}
+
+static NlvKey nlv_vkey(NanoValue v) {
+    NlvKey k; k.tag = v.tag; k.bits = (uint64_t)v.as.i64; k.id = 0;
+    if (v.tag == TAG_STRING || nlv_vis_container(v.tag)) k.id = v.as.obj ? nlv_reg_id(v.as.obj) : 0;
+    return k;
+}
+static int nlv_vkey_eq(NlvKey a, NlvKey b) { return a.tag == b.tag && a.bits == b.bits && a.id == b.id; }
+
+static void nlv_vvalue(FILE *f, NanoValue v) {
+    uint64_t bits = 0; int o = 0; unsigned hk = 0;
+    const VmString *str = NULL;
+    switch (v.tag) {
+    case TAG_VOID: break;
+    case TAG_INT: bits = (uint64_t)v.as.i64; break;
+    case TAG_FLOAT: memcpy(&bits, &v.as.f64, sizeof bits); break;
+    case TAG_BOOL: case TAG_U8: bits = v.as.u8; break;
+    case TAG_ENUM: bits = (uint64_t)(int64_t)v.as.enum_val; break;
+    case TAG_OPAQUE: bits = v.as.proxy_id; break;
+    case TAG_STRING:
+        if (!v.as.string) o = -2;
+        else if (nlv_reg_id(v.as.string) <= 0) o = -1;
+        else { str = v.as.string; bits = str->length; if (str->length > NLV_VSTR_MAX) hk = nlv_str_key(str->data, str->length); }
+        break;
+    case TAG_FUNCTION:
+        o = v.as.obj ? nlv_reg_id(v.as.obj) : 0;
+        if (o <= 0) { bits = v.as.fn_idx; o = v.as.obj ? -1 : 0; }
+        break;
+    default:
+        if (nlv_vis_container(v.tag)) o = v.as.obj ? nlv_reg_id(v.as.obj) : -2;
+        else bits = (uint64_t)v.as.i64;
+        break;
+    }
+    fprintf(f, "{\"t\":%u,\"n\":[%u,%u,%u,%u],\"s\":[", (unsigned)v.tag, (unsigned)((bits >> 48) & 0xFFFF),
+            (unsigned)((bits >> 32) & 0xFFFF), (unsigned)((bits >> 16) & 0xFFFF), (unsigned)(bits & 0xFFFF));
+    if (str && str->length <= NLV_VSTR_MAX)
+        for (uint32_t i = 0; i < str->length; i++) fprintf(f, "%s%u", i ? "," : "", (unsigned)(unsigned char)str->data[i]);
+    fprintf(f, "],\"h\":%u,\"o\":%d}", hk, o);
+}
+
+static void nlv_vvalues(FILE *f, const NanoValue *v, uint32_t from, uint32_t to) {
+    fputc('[', f);
+    for (uint32_t i = from; i < to; i++) { if (i > from) fputc(',', f); nlv_vvalue(f, v[i]); }
+    fputc(']', f);
+}
+
+/* contents of a container as a flat value sequence (hashmap: key, value, ... in bucket order) */
+static uint32_t nlv_vcontents(const void *p, int tag, const NanoValue **direct, NanoValue **flat, uint32_t *m0, uint32_t *m1) {
+    *direct = NULL; *flat = NULL; *m0 = 0; *m1 = 0;
+    switch (tag) {
+    case TAG_ARRAY:  *direct = ((const VmArray *)p)->elements; *m0 = ((const VmArray *)p)->elem_type; return ((const VmArray *)p)->length;
+    case TAG_STRUCT: *direct = ((const VmStruct *)p)->fields; *m0 = ((const VmStruct *)p)->def_idx; return ((const VmStruct *)p)->field_count;
+    case TAG_UNION:  *direct = ((const VmUnion *)p)->fields; *m0 = ((const VmUnion *)p)->def_idx; *m1 = ((const VmUnion *)p)->variant;
+                     return ((const VmUnion *)p)->field_count;
+    case TAG_TUPLE:  *direct = ((const VmTuple *)p)->elements; return ((const VmTuple *)p)->count;
+    case TAG_FUNCTION: *direct = ((const VmClosure *)p)->captures; *m0 = ((const VmClosure *)p)->fn_idx; return ((const VmClosure *)p)->capture_count;
+    case TAG_HASHMAP: {
+        const VmHashMap *m = (const VmHashMap *)p;
+        uint32_t n = 0, j = 0;
+        *m0 = m->key_type; *m1 = m->val_type;
+        for (uint32_t b = 0; b < m->bucket_count; b++) for (const VmHMEntry *e = m->buckets[b]; e; e = e->next) n += 2;
+        if (n) *flat = malloc(n * sizeof(NanoValue));
+        if (n && !*flat) return 0;
+        for (uint32_t b = 0; b < m->bucket_count; b++)
+            for (const VmHMEntry *e = m->buckets[b]; e; e = e->next) { (*flat)[j++] = e->key; (*flat)[j++] = e->value; }
+        *direct = *flat;
+        return n;
+    }
+    default: return 0;
+    }
+}
+
+/* the observation: everything that changed since the previous hook point */
+static void nlv_vobs(FILE *f, VmState *vm) {
+    /* stack */
+    uint32_t d = vm->stack_size, si = d < nlv_vstack_n ? d : nlv_vstack_n;
+    if (d > nlv_vstack_cap) {
+        uint32_t nc = nlv_vstack_cap ? nlv_vstack_cap : 256;
+        while (nc < d) nc *= 2;
+        NlvKey *nk = realloc(nlv_vstack, nc * sizeof(NlvKey));
+        if (!nk) return;
+        nlv_vstack = nk; nlv_vstack_cap = nc;
+    }
+    for (uint32_t i = 0; i < si; i++)
+        if (!nlv_vkey_eq(nlv_vstack[i], nlv_vkey(vm->stack[i]))) { si = i; break; }
+    fprintf(f, "\"ip\":%u,\"fn\":%u,\"d\":%u,\"si\":%u,\"sv\":", vm->ip, vm->current_fn, d, si);
+    nlv_vvalues(f, vm->stack, si, d);
+    for (uint32_t i = si; i < d; i++) nlv_vstack[i] = nlv_vkey(vm->stack[i]);
+    nlv_vstack_n = d;
+    /* frames */
+    fprintf(f, ",\"fc\":%u,\"fr\":[", vm->frame_count);
+    if (vm->frame_count > 0 && vm->frame_count <= VM_MAX_FRAMES) {
+        const VmCallFrame *fr = &vm->frames[vm->frame_count - 1];
+        fprintf(f, "%u,%u,%u,%u,%d", fr->fn_idx, fr->stack_base, (unsigned)fr->local_count, fr->return_ip,
+                fr->closure ? nlv_reg_id(fr->closure) : 0);
+    }
+    /* globals */
+    if (!nlv_vglob) nlv_vglob = calloc(VM_MAX_GLOBALS, sizeof(NlvKey));
+    fprintf(f, "],\"gc\":%u,\"g\":[", vm->global_count);
+    if (nlv_vglob) {
+        uint32_t gn = vm->global_count <= VM_MAX_GLOBALS ? vm->global_count : VM_MAX_GLOBALS;
+        int first = 1;
+        for (uint32_t i = 0; i < gn; i++) {
+            NlvKey k = nlv_vkey(vm->globals[i]);
+            if (i < nlv_vglob_n && nlv_vkey_eq(nlv_vglob[i], k)) continue;
+            fprintf(f, "%s[%u,", first ? "" : ",", i); nlv_vvalue(f, vm->globals[i]); fputc(']', f);
+            first = 0; nlv_vglob[i] = k;
+        }
+        nlv_vglob_n = gn;
+    }
+    /* containers */
+    fprintf(f, "],\"h\":[");
+    nlv_vepoch++;
+    int firsth = 1;
+    for (int slot = 0; slot < nlv_reg_cap(); slot++) {
+        int id, tag;
+        const void *p = nlv_reg_ptr_at(slot, &id, &tag);
+        if (!p || tag == TAG_STRING || id <= 0) continue;
+        if (id >= nlv_vsh_cap) {
+            int nc = nlv_vsh_cap ? nlv_vsh_cap : 1024;
+            while (nc <= id) nc *= 2;
+            NlvShadow *ns = realloc(nlv_vsh, (size_t)nc * sizeof(NlvShadow));
+            if (!ns) continue;
+            memset(ns + nlv_vsh_cap, 0, (size_t)(nc - nlv_vsh_cap) * sizeof(NlvShadow));
+            nlv_vsh = ns; nlv_vsh_cap = nc;
+        }
+        NlvShadow *sh = &nlv_vsh[id];
+        const NanoValue *vals; NanoValue *flat; uint32_t m0, m1;
+        uint32_t n = nlv_vcontents(p, tag, &vals, &flat, &m0, &m1);
+        int isnew = sh->seen == 0;
+        if (isnew) {
+            if (nlv_vlive_n >= nlv_vlive_cap) {
+                int nc = nlv_vlive_cap ? nlv_vlive_cap * 2 : 256;
+                int *nl = realloc(nlv_vlive, (size_t)nc * sizeof(int));
+                if (!nl) { free(flat); continue; }
+                nlv_vlive = nl; nlv_vlive_cap = nc;
+            }
+            nlv_vlive[nlv_vlive_n++] = id;
+            sh->tag = tag; sh->len = 0; sh->cap = 0; sh->k = NULL;
+        }
+        sh->seen = nlv_vepoch;
+        uint32_t from = n < sh->len ? n : sh->len;
+        for (uint32_t i = 0; i < from; i++)
+            if (!nlv_vkey_eq(sh->k[i], nlv_vkey(vals[i]))) { from = i; break; }
+        if (isnew || from < n || n != sh->len || m0 != sh->m0 || m1 != sh->m1) {
+            fprintf(f, "%s{\"id\":%d,\"k\":%d,\"m\":[%u,%u],\"len\":%u,\"from\":%u,\"v\":", firsth ? "" : ",", id, tag, m0, m1, n, from);
+            nlv_vvalues(f, vals, from, n);
+            fputc('}', f);
+            firsth = 0;
+            if (n > sh->cap) {
+                NlvKey *nk = realloc(sh->k, n * sizeof(NlvKey));
+                if (nk) { sh->k = nk; sh->cap = n; }
+            }
+            if (n <= sh->cap) { for (uint32_t i = from; i < n; i++) sh->k[i] = nlv_vkey(vals[i]); sh->len = n; }
+            sh->m0 = m0; sh->m1 = m1;
+        }
+        free(flat);
+    }
+    fprintf(f, "],\"hf\":[");
+    int firstf = 1, w = 0;
+    for (int i = 0; i < nlv_vlive_n; i++) {
+        int id = nlv_vlive[i];
+        if (nlv_vsh[id].seen == nlv_vepoch) { nlv_vlive[w++] = id; continue; }
+        fprintf(f, "%s%d", firstf ? "" : ",", id); firstf = 0;
+        free(nlv_vsh[id].k); memset(&nlv_vsh[id], 0, sizeof(NlvShadow));
+    }
+    nlv_vlive_n = w;
+    fputc(']', f);
+}
+
+static void nlv_vjson_str(FILE *f, const char *s) {
+    fputc('"', f);
+    for (; *s; s++) {
+        unsigned char c = (unsigned char)*s;
+        if (c == '"' || c == '\\') fprintf(f, "\\%c", c);
+        else if (c < 0x20 || c >= 0x7f) fprintf(f, "\\u%04x", c);
+        else fputc(c, f);
+    }
+    fputc('"', f);
+}
+
+static void nlv_vmodule(FILE *f, VmState *vm) {
+    const NvmModule *m = vm->module;
+    if ((const void *)m == nlv_vmod) return;
+    nlv_vmod = m;
+    fprintf(f, "{\"e\":\"mod\",\"entry\":%u,\"fns\":[", m->header.entry_point);
+    for (uint32_t i = 0; i < m->function_count; i++)
+        fprintf(f, "%s[%u,%u,%u,%u,%u]", i ? "," : "", (unsigned)m->functions[i].arity, (unsigned)m->functions[i].local_count,
+                m->functions[i].code_offset, m->functions[i].code_length, (unsigned)m->functions[i].upvalue_count);
+    fprintf(f, "],\"imps\":[");
+    for (uint32_t i = 0; i < m->import_count; i++) fprintf(f, "%s%u", i ? "," : "", (unsigned)m->imports[i].param_count);
+    fprintf(f, "]}\n");
+}
+
+/* before the instruction at vm->ip is executed (exhausted: the instruction budget of H1 ran out, nothing is executed) */
+static void nlv_vstep(VmState *vm, uint32_t code_end, int exhausted) {
+    FILE *f = nlv_vfile();
+    if (!f) return;
+    if (exhausted) { fprintf(f, "{\"e\":\"fuel\","); nlv_vobs(f, vm); fprintf(f, "}\n"); return; }
+    DecodedInstruction di;
+    const uint8_t *code = vm->module->code;
+    uint32_t n = isa_decode(code + vm->ip, code_end - vm->ip, &di);
+    const InstructionInfo *info = n ? isa_get_info(di.opcode) : NULL;
+    fprintf(f, "{\"e\":\"op\",\"k\":%ld,\"op\":\"%s\",\"oc\":%d,\"len\":%u,\"a\":[", ++nlv_vk, info ? info->name : "?", n ? (int)di.opcode : -1, n);
+    NanoValue imm = val_void();
+    if (info) for (int i = 0; i < info->operand_count; i++) {
+        long long v = 0;
+        switch (info->operands[i]) {
+        case OPERAND_U8: v = di.operands[i].u8; break;
+        case OPERAND_U16: v = di.operands[i].u16; break;
+        case OPERAND_U32: v = (long long)di.operands[i].u32; break;
+        case OPERAND_I32: v = di.operands[i].i32; break;
+        case OPERAND_I64: imm = val_int(di.operands[i].i64); break;
+        case OPERAND_F64: imm = val_float(di.operands[i].f64); break;
+        default: break;
+        }
+        if (v > 0x3FFFFFFF) v = 0x3FFFFFFF;        /* keeps the number inside TLC's integers; such operands name nothing that exists */
+        fprintf(f, "%s%lld", i ? "," : "", v);
+    }
+    fprintf(f, "],\"imm\":");
+    if (info && di.opcode == OP_PUSH_STR) {
+        /* the pool constant, shown as the string value it denotes (not yet a heap object) */
+        const char *ps = nvm_get_string(vm->module, di.operands[0].u32);
+        if (!ps) ps = "";
+        size_t L = strlen(ps);
+        fprintf(f, "{\"t\":%d,\"n\":[0,0,%u,%u],\"s\":[", TAG_STRING, (unsigned)((L >> 16) & 0xFFFF), (unsigned)(L & 0xFFFF));
+        if (L <= NLV_VSTR_MAX) for (size_t i = 0; i < L; i++) fprintf(f, "%s%u", i ? "," : "", (unsigned)(unsigned char)ps[i]);
+        fprintf(f, "],\"h\":%u,\"o\":0}", L > NLV_VSTR_MAX ? nlv_str_key(ps, (uint32_t)L) : 0u);
+    } else nlv_vvalue(f, imm);
+    fputc(',', f);
+    nlv_vobs(f, vm);
+    fprintf(f, "}\n");
+    fflush(f);          /* if the instruction kills the process its line is the last one of the trace */
+}
+
+/* the value(s) the core hands to the host in a trap (print/assert value, extern arguments) */
+static void nlv_vtrap(const NanoValue *v, int n) {
+    if (!nlv_vfile()) return;
+    nlv_vstash_n = n < 0 ? 0 : n > 17 ? 17 : n;
+    for (int i = 0; i < nlv_vstash_n; i++) nlv_vstash[i] = v[i];
+}
+
+static void nlv_vend(VmState *vm, const char *kind, int code) {
+    FILE *f = nlv_vfile();
+    if (!f) return;
+    fprintf(f, "{\"e\":\"end\",\"kind\":\"%s\",\"called\":%d,\"code\":%d,\"msg\":", kind, nlv_vcalled, code);
+    nlv_vjson_str(f, code ? vm->error_msg : "");
+    fprintf(f, ",\"val\":");
+    nlv_vvalue(f, vm_get_result(vm));
+    fprintf(f, "}\n");
+    fflush(f);
+}
+
+/* other hook points: host set up a call, core returned (trap), host released a trap value / pushed an extern result */
+static void nlv_vevent(VmState *vm, const char *what, int val) {
+    FILE *f = nlv_vfile();
+    if (!f) return;
+    if (strcmp(what, "call") == 0) { nlv_vmodule(f, vm); nlv_vcalled = val; }
+    fprintf(f, "{\"e\":\"%s\",\"val\":%d,\"tv\":", what, val);
+    nlv_vvalues(f, nlv_vstash, 0, (uint32_t)nlv_vstash_n);
+    nlv_vstash_n = 0;
+    fputc(',', f);
+    nlv_vobs(f, vm);
+    fprintf(f, "}\n");
+    fflush(f);
+    if (strcmp(what, "ret_none") == 0 || strcmp(what, "ret_halt") == 0) nlv_vend(vm, "ok", 0);
+    else if (strcmp(what, "ret_error") == 0) nlv_vend(vm, "error", val);
+}
+
+#endif /* NANOLANG_VERIF */
+#endif
